@@ -471,10 +471,25 @@ impl IncrementalEngine {
                 .enumerate()
                 .find(|(_, r)| r.name == activation.rule_name)
             {
-                // Validate that matched fact still exists (hasn't been retracted)
+                // Validate that matched fact still exists (hasn't been retracted) and that it
+                // still satisfies the rule: the activation was created when the fact was
+                // inserted or updated, and the fact may have changed since then.
                 if let Some(matched_handle) = activation.matched_fact_handle {
-                    if self.working_memory.get(&matched_handle).is_none() {
+                    let Some(fact) = self.working_memory.get(&matched_handle) else {
                         // Fact was retracted, skip this activation
+                        continue;
+                    };
+                    let mut single_fact_data = TypedFacts::new();
+                    for (key, value) in fact.data.get_all() {
+                        single_fact_data.set(format!("{}.{}", fact.fact_type, key), value.clone());
+                    }
+                    single_fact_data.set_fact_handle(fact.fact_type.clone(), fact.handle);
+                    if !super::network::evaluate_rete_ul_node_typed(
+                        &rule.node,
+                        &single_fact_data,
+                        &self.custom_functions,
+                    ) {
+                        // Stale activation: the fact no longer matches
                         continue;
                     }
                 }
